@@ -60,6 +60,7 @@ pub fn monthdays() -> Vec<Vec<MonthdayRange>> {
         vec![md_single(fixed(None, 1, 1), off_days(-1))],
         vec![md_month(1, 1, None), md_single(fixed(None, 7, 14), o)],
         vec![md_range(fixed(None, 12, 31), o, fixed(None, 1, 1), o)],
+        vec![md_range(fixed(Some(2020), 6, 1), o, fixed(None, 6, 1), o)], // 2020 Jun 01-Jun 01: year-less end equal to the start
     ]
 }
 
